@@ -264,3 +264,40 @@ Proof.
   - rewrite (ImplicitSound.f2d_correct l dl El). cbn. tauto.
   - cbn. tauto.
 Qed.
+
+Lemma rdot_zeros rr n : rdot rr (repeat 0 n) = 0.
+Proof. revert n; induction rr as [|a rr IH]; intros [|n]; cbn; try reflexivity. rewrite IH. ring. Qed.
+
+(* the eliminated row does not depend on the solution vector: it annihilates EVERY vector that all original equations annihilate
+   (it lies in their span), has exact zeros in the eliminated columns, and is enclosed by the interval row *)
+Theorem eliminate_sound_all (rows : list irow) (RR : list (list R)) (n : nat) (hidden : list nat) (k : nat) :
+  Forall2 (fun ir rr => Forall2 encl_entry ir rr) rows RR ->
+  Forall (fun rr => length rr = n) RR ->
+  NoDup hidden -> (k < length rows)%nat -> ~ In k hidden ->
+  let ir := nth k (eliminate hidden rows) [] in
+  Forall unbounded ir \/
+  exists rr, Forall2 encl_entry ir rr /\ (forall h, In h hidden -> nth h rr 0 = 0)
+             /\ forall z, Forall (fun R0 => rdot R0 z = 0) RR -> rdot rr z = 0.
+Proof.
+  intros HE HL ND Hk Nk ir.
+  set (orows := map (@Some (list R)) RR).
+  assert (E0 : Forall2 encl_row rows orows).
+  { unfold orows. clear -HE. induction HE; cbn; constructor; assumption. }
+  pose proof (eliminate_encl hidden rows orows E0) as E1.
+  assert (Lr : length rows = length orows) by (unfold orows; rewrite map_length; eapply Forall2_len; exact HE).
+  assert (Inv0 : forall z, Forall (fun R0 => rdot R0 z = 0) RR -> forall j, (j < length orows)%nat -> row_inv z n [] j (nth j orows None)).
+  { intros z HZ j Hj. unfold orows in *. rewrite map_length in Hj.
+    rewrite (nth_indep _ None (Some []) ) by (rewrite map_length; exact Hj). rewrite (map_nth (@Some (list R)) RR [] j).
+    cbn [row_inv]. rewrite Forall_forall in HL, HZ.
+    repeat split; [apply HL; apply nth_In; exact Hj | apply HZ; apply nth_In; exact Hj | intros _ h []]. }
+  assert (ND0 : NoDup (hidden ++ [])) by (rewrite app_nil_r; exact ND).
+  rewrite Lr in Hk.
+  pose proof (Forall2_nth encl_row _ _ [] None k E1 (Forall_nil _)) as Ek. fold ir in Ek.
+  destruct (nth k (oeliminate hidden orows) None) as [rr|] eqn:Er; [|left; exact Ek].
+  right. exists rr. split; [exact Ek|]. split.
+  - assert (HZ0 : Forall (fun R0 => rdot R0 (repeat 0 n) = 0) RR) by (apply Forall_forall; intros; apply rdot_zeros).
+    pose proof (oeliminate_inv (repeat 0 n) n hidden [] orows ND0 (Inv0 _ HZ0) k Hk) as Ik. rewrite app_nil_r, Er in Ik.
+    destruct Ik as [_ [_ C]]. intros h Hh. apply C; [intro K; apply Nk; apply in_rev; exact K | apply in_rev in Hh; exact Hh].
+  - intros z HZ. pose proof (oeliminate_inv z n hidden [] orows ND0 (Inv0 z HZ) k Hk) as Ik. rewrite app_nil_r, Er in Ik.
+    destruct Ik as [_ [B _]]. exact B.
+Qed.
